@@ -560,6 +560,8 @@ struct Worker {
     priority: u64,
     /// inside a harness set-up section of an operation
     harness_section: bool,
+    /// the caller thread currently runs with credentials other than the supervisor's
+    alt_creds: bool,
 }
 
 pub struct Universe {
@@ -706,7 +708,7 @@ impl Universe {
             cfg,
             listener,
             workers: (0..nworkers)
-                .map(|_| Worker { tid: 0, state: WState::Running, notif: None, cur_op: None, has_job: false, pending_create: None, op_steps: 0, priority: 0, harness_section: false })
+                .map(|_| Worker { tid: 0, state: WState::Running, notif: None, cur_op: None, has_job: false, pending_create: None, op_steps: 0, priority: 0, harness_section: false, alt_creds: false })
                 .collect(),
             launcher_notif: None,
             pid: unsafe { libc::getpid() },
@@ -1026,6 +1028,9 @@ impl Universe {
                         self.workers[t].cur_op = Some(k);
                         self.workers[t].op_steps = 0;
                         let spec = input.jobs[t][k].clone();
+                        if let Op::SetEuid { uid } = &spec.op {
+                            self.workers[t].alt_creds = *uid != 0;
+                        }
                         if let Op::Sup { muts } = &spec.op {
                             for m in muts {
                                 self.apply_mutation(&mut world, m, &mut out, step);
@@ -1382,6 +1387,39 @@ impl Universe {
                     answer = Answer::Fail(sys::errno());
                 }
             }
+            // A scoped openat2 lookup through ".." returns EAGAIN whenever any
+            // rename or mount happens anywhere on the machine (kernel-global
+            // sequence counters): interference from outside the simulation,
+            // which would make traces differ between two runs of one seed.
+            // For lookups on the world's tree the supervisor therefore
+            // executes the call on the caller's behalf (same descriptor table,
+            // same address space, same credentials) and retries real EAGAINs;
+            // injected EAGAINs are unaffected. Not done for procfs (the call
+            // depends on the calling thread: thread-self) or when the caller
+            // thread runs with other credentials.
+            if nr == libc::SYS_openat2 && answer == Answer::Continue && !self.workers[t].alt_creds {
+                let on_tree = matches!(ev.dir.as_ref().map(|d| &d.prov), Some(Prov::Tree(..)) | Some(Prov::TreeUnknown));
+                if on_tree {
+                    let mut retries = 0u64;
+                    loop {
+                        let r = unsafe { libc::syscall(libc::SYS_openat2, n.data.args[0], n.data.args[1], n.data.args[2], n.data.args[3]) };
+                        if r >= 0 {
+                            answer = Answer::Value(r);
+                            break;
+                        }
+                        let e = sys::errno();
+                        if e == libc::EAGAIN {
+                            retries += 1;
+                            continue;
+                        }
+                        answer = Answer::Fail(e);
+                        break;
+                    }
+                    if retries > 0 {
+                        *out.probes.entry("real_openat2_eagain_absorbed_by_supervisor".into()).or_insert(0) += retries;
+                    }
+                }
+            }
             // entropy is simulated
             if nr == libc::SYS_getrandom && answer == Answer::Continue {
                 let len = n.data.args[1] as usize;
@@ -1542,7 +1580,11 @@ impl Universe {
     fn apply_mutation(&mut self, world: &mut Option<World>, m: &Mutation, out: &mut RunOut, _step: usize) -> bool {
         if let Mutation::Dup3Slot { slot, newfd } = m {
             let fd = ops::slot(*slot);
-            if fd >= 0 && fd != *newfd {
+            // never renumber onto a descriptor somebody else owns (the library's
+            // process-lifetime procfs handle lives at a low number); 0/1/2 are
+            // the universe's own /dev/null and may be replaced
+            let busy = *newfd > 2 && sys::fcntl_getfd(*newfd) >= 0;
+            if fd >= 0 && fd != *newfd && !busy {
                 if sys::dup3(fd, *newfd, libc::O_CLOEXEC).is_ok() {
                     sys::close(fd);
                     ops::set_slot(*slot, *newfd);
